@@ -332,6 +332,17 @@ theorem check_gcd_factors_inv (n : Nat) (pp : Nat → Bool) (st : CgfState) (hin
     ∃ b st', checkGcdFactors n pp st = some (b, st') ∧ CgfInv n st' ∧ (b = false → st'.vals ≠ []) :=
   checkGcdFactors_inv n pp st hinv hne hchain
 
+/-- the polynomial path of `pm1_impl` (stage 2 by `pm1_stage2_polyeval`, appended without `check_gcd_factors`): with the
+guard `if f2.contains(n) { return None; }` (commit 9b94f92; its presence is read from the source into
+`Stage2Arms.pm1PolyGuard`) every state it produces satisfies the invariant, and `n ∉ f2` holds for the list appended. -/
+theorem pm1_polyeval_inv (n : Nat) (pp : Nat → Bool) (st : CgfState) (hinv : CgfInv n st) (hne : st.vals ≠ [])
+    (hchain : ∀ i j, i ≤ j → j < st.vals.length →
+      Nat.gcd st.nred (st.vals.getD i 0) ∣ Nat.gcd st.nred (st.vals.getD j 0)) :
+    ∃ r, pm1PolyStep n pp st = some r ∧ ∀ st', r = some st' →
+      CgfInv n st' ∧ ∃ f2 n2, gcdFactors st.nred st.vals pp = some (f2, n2) ∧ n ∉ f2 ∧
+        st' = { factors := st.factors ++ f2, nred := n2, vals := [] } :=
+  pm1PolyStep_inv n pp st hinv hne hchain
+
 /-- … so what `pm1_impl` / `pp1` return multiplies to `n` with all listed parts `> 1`, none equal to `n`. -/
 theorem pm1_result_proper {n : Nat} {st : CgfState} (hinv : CgfInv n st) {fs : List Nat} {rest : Nat}
     (h : splitResult st = some (fs, rest)) :
@@ -877,6 +888,8 @@ example : gcdFactors 1001 [1, 7, 7, 77, 1001] (fun _ => false) = some ([7, 11, 1
 example : CgfInv 1001 ⟨[7], 143, [2, 11, 11]⟩ ∧
     checkGcdFactors 1001 (fun _ => true) ⟨[7], 143, [2, 11, 11]⟩ = some (true, ⟨[7, 11], 13, [2, 11, 11]⟩) := by
   refine ⟨⟨by decide, by decide, by decide, by decide⟩, by decide⟩
+example : pm1PolyStep 1001 (fun _ => false) ⟨[], 1001, [1, 1001]⟩ = some none ∧
+    pm1PolyStep 1001 (fun _ => false) ⟨[], 1001, [1, 7]⟩ = some (some ⟨[7], 143, []⟩) := by decide
 example : checkGcdFactor 1001 [1, 7, 7, 77] (fun _ => false) = some (some 11) := by decide
 example : rhoImplResult 1001 [1, 7, 77] (fun _ => false) = some (some ([7, 11], 13)) := by decide
 example : ynorm (· * ·) [((2 : ZMod 7), (3 : ZMod 7)), (4, 5), (6, 1)] = [(2 * 5 * 1, 3), (4 * 3 * 1, 5), (6 * 3 * 5, 1)] := by
